@@ -4055,6 +4055,14 @@ func (a *Association) getDataPacketsToRetransmit(budgetScaled *int64, consumed *
 			continue
 		}
 
+		// The chunk may have been marked for retransmission before its
+		// message was abandoned; an abandoned chunk is never sent again.
+		if chunkPayload.abandoned() {
+			chunkPayload.retransmit = false
+
+			continue
+		}
+
 		if i == 0 && int(a.RWND()) < len(chunkPayload.userData) {
 			// allow as zero window probe
 		} else if bytesToSend+len(chunkPayload.userData) > int(awnd) {
